@@ -1,5 +1,5 @@
 """Source of truth for MANIFEST.json (run ../tools_manifest.py after editing)."""
-SOURCE_COMMITS = []
+SOURCE_COMMITS = []  # no hook commits; fix: commits are listed in known_findings.json
 NOTES = ('Technique family: machine-checked proof in Lean 4. See DESIGN.md. Every check regenerates the generated '
          'Lean sources from /repo, rebuilds the theorems, audits axioms, runs model-vs-code correspondence and a '
          'failing-input search on the real code.')
@@ -20,6 +20,25 @@ CHECKS = [
               'arrays and comparing every point and weight with the compiled model.',
          note='exact arithmetic; binary64 rounding of np.dot not modelled; exactness on general boxes via the '
               'pull-back identities; harness and driver parser trusted'),
+    dict(id='C02', design_ref='DESIGN.md section 6 / C02',
+         technique='Lean 4 invariant proof by induction over all operation histories + lock-step state-dump correspondence',
+         text='Proof that the executable A-layer model of src/mesh.py keeps the invariant Inv (half-open tiling of the '
+              'cylinder, 1-irregularity across edges incl. the seam, unique indices below the counter) from every '
+              'strictly increasing tensor grid through every operation (refine_axis with its recursive closure never '
+              'trips an assertion and terminates with fuel level+1; refine, uniform, Doerfler, grading); the model is '
+              'tied to the code by comparing the complete observable state after every operation of exhaustive '
+              'bounded and long random histories run on Fraction coordinates.',
+         note='the half-edge pointer structure is modelled through its observable content (geometric neighbours, '
+              'vertex coordinates) and validated by correspondence, not verified; binary64 midpoints not modelled'),
+    dict(id='C05', design_ref='DESIGN.md section 6 / C05',
+         technique='translator (source -> Lean tables) + kernel-evaluated rational certificates with verified log/sqrt enclosures',
+         text='Every literal of src/quadrature_rules.py is regenerated into Lean on every run; for each of the 103 '
+              'table entries and every degree of its advertised class the Lean kernel evaluates a certificate whose '
+              'soundness theorem yields, over the real numbers with the true log and sqrt, a relative moment defect '
+              '<= 1e-30 on the literals and <= 1e-13 on the certified binary64 roundings; all branches return, exported '
+              'key lists are available. Complete enumeration of a finite space.',
+         note='two entries (gauss_log 15 and 31) are certified only to 1e-18 and recorded as known findings with Lean '
+              'negation witnesses; translator and Mathlib analysis library trusted; dot-product rounding not modelled'),
 ]
 for p in _PENDING:
     if p not in [c['id'] for c in CHECKS]:
